@@ -141,5 +141,10 @@ Definition run_jsr (s : sexp) : sexp :=
 Definition is_jsr_case (s : sexp) : bool :=
   match s with L (A t :: _) => N.eqb t JSRTAG | _ => false end.
 
+(* a case decided on the real code alone (relational): nothing to compute here *)
+Definition RELTAG : N := 31338.
+Definition is_rel_case (s : sexp) : bool :=
+  match s with L (A t :: _) => N.eqb t RELTAG | _ => false end.
+
 Definition with_jsr (f : sexp -> sexp) (s : sexp) : sexp :=
-  if is_jsr_case s then run_jsr s else f s.
+  if is_jsr_case s then run_jsr s else if is_rel_case s then L [] else f s.
